@@ -366,4 +366,115 @@ theorem computeIndex_walk (n : Nat) (a b c : Option Int) (hbase : baseOk n a b c
   · exact computeIndex_walk_ss n a b c hbase h j
 
 
+/-! ### Python side: bounds -/
+
+theorem pyAxis_eq (n : Nat) (a b c : Option Int) (hk : stepVal c ≠ 0) :
+    pyAxis n a b c = some ((pyLen (pyStart n a c) (pyStop n b c) (stepVal c)).toNat, pyStart n a c, stepVal c) := by
+  unfold pyAxis pyIndices pyStart pyStop
+  rcases c with _ | c
+  · simp [stepVal]
+  · simp only [stepVal] at hk ⊢
+    simp [hk]
+
+theorem pyStart_bounds (n : Nat) (a c : Option Int) :
+    (0 < stepVal c → 0 ≤ pyStart n a c ∧ pyStart n a c ≤ n) ∧
+    (stepVal c < 0 → -1 ≤ pyStart n a c ∧ pyStart n a c ≤ (n : Int) - 1) := by
+  unfold pyStart pyAdjust
+  rcases a with _ | a <;> simp only <;> constructor <;> intro h <;> split_ifs <;> omega
+
+theorem pyStop_bounds (n : Nat) (b c : Option Int) :
+    (0 < stepVal c → 0 ≤ pyStop n b c ∧ pyStop n b c ≤ n) ∧
+    (stepVal c < 0 → -1 ≤ pyStop n b c ∧ pyStop n b c ≤ (n : Int) - 1) := by
+  unfold pyStop pyAdjust
+  rcases b with _ | b <;> simp only <;> constructor <;> intro h <;> split_ifs <;> omega
+
+theorem pyRange_bounds (n : Nat) (a b c : Option Int) (hk : stepVal c ≠ 0) :
+    0 ≤ pyRange (pyStart n a c) (pyStop n b c) (stepVal c) ∧ pyRange (pyStart n a c) (pyStop n b c) (stepVal c) ≤ n := by
+  have h1 := pyStart_bounds n a c
+  have h2 := pyStop_bounds n b c
+  unfold pyRange
+  split_ifs <;> omega
+
+theorem pyLen_nonneg (st sp k : Int) (hk : k ≠ 0) : 0 ≤ pyLen st sp k := by
+  unfold pyLen
+  split_ifs with h1 h2 h2
+  · have : 0 ≤ (st - sp - 1) / -k := Int.ediv_nonneg (by omega) (by omega)
+    omega
+  · omega
+  · have : 0 ≤ (sp - st - 1) / k := Int.ediv_nonneg (by omega) (by omega)
+    omega
+  · omega
+
+/-- `j < len` means `j * |k| ≤ range - 1` -/
+theorem mul_le_of_lt_pyLen (st sp k : Int) (hk : k ≠ 0) (j : Nat) (hj : j < (pyLen st sp k).toNat) :
+    0 < pyRange st sp k ∧ (j : Int) * absI k ≤ pyRange st sp k - 1 := by
+  have hn := pyLen_nonneg st sp k hk
+  have hj' : (j : Int) < pyLen st sp k := by omega
+  rw [pyLen_eq] at hj'
+  have hak : 0 < absI k := by unfold absI; split_ifs <;> omega
+  split_ifs at hj' with h0
+  · omega
+  · have hr : 0 ≤ pyRange st sp k := by unfold pyRange; split_ifs <;> omega
+    refine ⟨by omega, ?_⟩
+    have h1 : (j : Int) ≤ (pyRange st sp k - 1) / absI k := by omega
+    have h2 : (j : Int) * absI k ≤ (pyRange st sp k - 1) / absI k * absI k := Int.mul_le_mul_of_nonneg_right h1 (by omega)
+    have h3 := Int.ediv_mul_le (pyRange st sp k - 1) (b := absI k) (by omega)
+    omega
+
+/-- SPEC sanity, for every input: the elements Python selects lie inside the axis -/
+theorem pyAxis_inBounds (n : Nat) (a b c : Option Int) (hk : stepVal c ≠ 0) (j : Nat)
+    (hj : j < (pyLen (pyStart n a c) (pyStop n b c) (stepVal c)).toNat) :
+    0 ≤ pyStart n a c + j * stepVal c ∧ pyStart n a c + j * stepVal c < n := by
+  obtain ⟨hpos, hmul⟩ := mul_le_of_lt_pyLen _ _ _ hk j hj
+  have h1 := pyStart_bounds n a c
+  have h2 := pyStop_bounds n b c
+  by_cases hneg : stepVal c < 0
+  · have e1 : absI (stepVal c) = -stepVal c := by unfold absI; rw [if_pos hneg]
+    have e2 : (j : Int) * -stepVal c = -((j : Int) * stepVal c) := by rw [Int.mul_neg]
+    have e3 : 0 ≤ (j : Int) * -stepVal c := Int.mul_nonneg (by omega) (by omega)
+    rw [e1] at hmul
+    unfold pyRange at hpos hmul
+    rw [if_pos hneg] at hpos hmul
+    split_ifs at hpos hmul <;> omega
+  · have e1 : absI (stepVal c) = stepVal c := by unfold absI; rw [if_neg hneg]
+    have e3 : 0 ≤ (j : Int) * stepVal c := Int.mul_nonneg (by omega) (by omega)
+    rw [e1] at hmul
+    unfold pyRange at hpos hmul
+    rw [if_neg hneg] at hpos hmul
+    split_ifs at hpos hmul <;> omega
+
+theorem computeStep_eq (c : Option Int) : computeStep c = absI (stepVal c) := by
+  rcases c with _ | c <;> (first | rfl | simp [computeStep, stepVal, absI])
+
+theorem emptyForm_range (n : Nat) (a b c : Option Int) (hbase : baseOk n a b c = true) (h : emptyForm n a b c = true) :
+    pyRange (pyStart n a c) (pyStop n b c) (stepVal c) = 0 := by
+  rcases a with _ | a <;> rcases b with _ | b <;> rcases c with _ | c <;>
+  dom_unpack2 hbase <;> dom_unpack2 h <;>
+  simp only [pyRange, pyStart, pyStop, pyAdjust, stepVal] <;>
+  dom_split h <;> dom_fin
+
+/-- per-axis agreement on Dom: same length, and every element `j` below it is Python's `start' + j*step`, inside the axis -/
+theorem range_dom (n : Nat) (a b c : Option Int) (h : domRange n a b c = true) :
+    sliceLen n a b c = some (pyLen (pyStart n a c) (pyStop n b c) (stepVal c)) ∧
+    ∀ j : Nat, j < (pyLen (pyStart n a c) (pyStop n b c) (stepVal c)).toNat →
+      computeIndex n a b c j = pyStart n a c + j * stepVal c := by
+  have hR := computeRange_dom n a b c h
+  obtain ⟨hbase, hform⟩ := (domRange_iff n a b c).1 h
+  have hk : stepVal c ≠ 0 ∧ absI (stepVal c) < 16777216 ∧ n < 16777216 := by
+    rcases c with _ | c <;> dom_unpack2 hbase <;> simp only [stepVal, absI] <;> split_ifs <;> omega
+  have hak : 0 < absI (stepVal c) := by unfold absI; split_ifs <;> omega
+  have hrb := pyRange_bounds n a b c hk.1
+  constructor
+  · unfold sliceLen
+    rw [hR, computeStep_eq, lengthOf_exact _ _ hrb.1 (by omega) hak hk.2.1, pyLen_eq]
+  · intro j hj
+    have hin := pyAxis_inBounds n a b c hk.1 j hj
+    rcases hform with he | hw
+    · have := emptyForm_range n a b c hbase he
+      have := (mul_le_of_lt_pyLen _ _ _ hk.1 j hj).1
+      omega
+    · rw [computeIndex_walk n a b c hbase hw j]
+      exact u64_small _ hin.1 (by omega)
+
+
 end NmVerif.Slice
